@@ -268,6 +268,35 @@ def _reads_only(s):
     return s.callee.name in READ_ONLY
 
 
+PERMUTING = {"rotate_left", "rotate_right", "swap", "reverse", "sort", "sort_by", "sort_by_key", "sort_unstable", "sort_unstable_by",
+             "sort_unstable_by_key", "swap_remove", "remove", "insert", "retain", "retain_mut", "drain", "truncate", "split_off", "dedup",
+             "dedup_by", "dedup_by_key", "copy_within", "swap_with_slice", "clone_from_slice", "copy_from_slice", "select_nth_unstable",
+             "push", "pop", "append", "extend", "resize", "resize_with", "clear", "shrink_to_fit"}
+
+
+def rule_stable(ctx, M, u, rule):
+    """Position K stays position K: no poll or drop body of a positional combinator permutes, shifts, grows or shrinks the
+    children container or one of its per-position tables (slots, states, error buffers)."""
+    m = u.member
+    if m is None:
+        return
+    bad = []
+    n = 0
+    for b_ in (m.poll, m.drop):
+        if b_ is None:
+            continue
+        bj = M.info(b_)
+        for s in bj.sites:
+            if s.callee.indirect or not s.args:
+                continue
+            n += 1
+            if s.callee.name in PERMUTING and s.callee.owner in ("slice", "Vec", "array", "VecDeque", "Box", "Pin") and families.self_path(s.arg(0)) is not None:
+                bad.append("%s::%s on self.%s (%s)" % (s.callee.owner, s.callee.name, ".".join(str(x) for x in families.self_path(s.arg(0))), s.where))
+    ctx.check(not bad, rule, m.poll.def_ if m.poll is not None else u.where,
+              "%s: children and their per-position tables are never permuted, shifted or resized after construction" % m.label,
+              site=u.body.span, path=bad[:4], sample={"calls_examined": n})
+
+
 def run_family(ctx, M, units, rule, cfg):
     """one instance per member ADT of the family; floor = 12 tuple arities + array (+ Vec with alloc)"""
     seen = set()
@@ -276,4 +305,5 @@ def run_family(ctx, M, units, rule, cfg):
             continue
         seen.add(u.member.adt)
         rule_children(ctx, M, u, rule)
-    ctx.floor(rule, cfg, 13 if cfg == "core" else 14)
+        rule_stable(ctx, M, u, rule)
+    ctx.floor(rule, cfg, 2 * (13 if cfg == "core" else 14))
